@@ -80,6 +80,7 @@ type fakeStream struct {
 	foreign   []string
 	parked    *parkedSend
 	drain     bool
+	free      bool // stress mode: a healthy stream's sends pass without parking
 	closed    bool
 	closedCh  chan struct{}
 	endKnown  bool // a fake call has returned an error to the pool (the stream is ending)
@@ -132,7 +133,7 @@ func (f *fakeStream) MsgSend(msg drpc.Message, _ drpc.Encoding) error {
 		f.mu.Unlock()
 		return errFakeClosed
 	}
-	if f.drain {
+	if f.drain || f.free {
 		err := f.resultLocked(n)
 		f.mu.Unlock()
 		return err
@@ -318,6 +319,9 @@ func (hd *handler) OpenStream(ctx context.Context, p peer.Peer) (drpc.Stream, []
 	hd.dialed = append(hd.dialed, f)
 	if h.draining {
 		f.drain = true
+	}
+	if h.stressFree && ps.Stream.Gate == gateHealthy {
+		f.free = true
 	}
 	hd.mu.Unlock()
 	return f, f.tags, ps.Stream.Queue, nil
